@@ -234,9 +234,36 @@ def check_case(case, ctx):
             ctx.violation("C17/ranking-equality-wrong", f"Ranking {ra} == {rb} returned {req}, expected {expected}", sub)
     # history: after having been compared, A is mutated in place and compared again (to a fresh dataset holding exactly
     # its new rankings: expected equal; to a fresh copy of its former content: expected by the reference)
-    mut = random.Random(case["seed"]).choice(["remove_empty", "remove_element", "none", "refused", "refused"])
+    mut = random.Random(case["seed"]).choice(["remove_empty", "remove_element", "none", "refused", "refused", "used", "used"])
     before_raw = libx.raw_dataset(da)
     did = False
+    if mut == "used" and not case.get("large"):
+        # the dataset is USED (aggregated, its consensus read, scored, evaluated, partitioned) but never mutated: it must
+        # still compare like a dataset holding its rankings
+        sch_u = ck.ScoringScheme.get_unifying_scoring_scheme()
+        r4 = random.Random(case["seed"] + 2)
+        for cfg in r4.sample(["PickAPerm", "Borda", "Copeland", "BioConsert", "KwikSort", "BioCo"], 3):
+            stc, cons = call(libx.make_algorithm(cfg).compute_consensus_rankings, da, sch_u, r4.random() < 0.5)
+            if stc == "ok":
+                uni_now = sorted(da.universe, key=str)
+                for k in (1, 2, len(uni_now)):
+                    call(cons.evaluate_topk_ranking, [e for e in uni_now if r4.random() < 0.4], k)
+                    call(cons.topk_ranking, k)
+                call(lambda: cons.kemeny_score)
+                call(cons.description)
+        call(ck.OrderedPartition.parfront_partition, da, sch_u)
+        call(da.unified_dataset)
+        ctx.count("compared_again_after_non_mutating_use")
+        fresh = libx.mk_dataset(before_raw)
+        for side, fn, want in (("a==fresh copy", lambda: da == fresh, True), ("fresh copy==a", lambda: fresh == da, True),
+                               ("a==b", lambda: da == db, expected)):
+            stq, got = call(fn)
+            if stq == "exc" or bool(got) != want:
+                ctx.violation("C17/wrong-answer-after-non-mutating-use", f"after aggregating the dataset and reading / "
+                              f"evaluating its consensuses (no mutator called), {side} gave "
+                              f"{exc_desc(got) if stq == 'exc' else got}, expected {want}", {**sub, "history": "used"},
+                              observed=repr(got), expected=want)
+                break
     if mut == "refused":
         # a mutation the library refuses (it would leave no element): the caller catches the exception and keeps the
         # Dataset, whose rankings are unchanged -- it must still compare like a dataset holding those rankings
@@ -307,6 +334,8 @@ def reach(counters, tier, info):
                             ("near misses: an empty bucket more / fewer / elsewhere", "near_miss:empty-bucket", 100 * k),
                             ("single-ranking pairs (agreement with Ranking equality)", "single_ranking_pairs", 300 * k),
                             ("datasets compared again after an in-place mutation", "compared_again_after_in_place_mutation", 400 * k),
+                            ("datasets compared again after having been aggregated / evaluated (no mutator called)",
+                             "compared_again_after_non_mutating_use", 600 * k),
                             ("datasets compared again after a refused mutation (rankings unchanged)",
                              "compared_again_after_refused_mutation", 600 * k)]:
         v = counters.get(key, 0)
